@@ -1,8 +1,9 @@
 (* C08  Unsound or contradictory declarations are refused; well-formed ones accepted.
    (first instalment: facts about accepted declarations; the reference rule book is
    Spec/Reference.v and is evaluated next to rustc's verdict on every declaration of the corpus) *)
-From NV Require Import Base.Util Base.Expr Macro.Surface Macro.Ast Macro.Parse Macro.Validate
-     Spec.Reference Lemmas.MacroLemmas.
+From NV Require Import Base.Util Base.IntTy Base.Expr Macro.Surface Macro.Ast Macro.Parse Macro.Validate Macro.GenTests
+     Sem.Guard Sem.Value Sem.Eval Sem.Conv Spec.Reference Lemmas.MacroLemmas.
+From Coq Require Import Zify ZifyBool.
 Local Open Scope string_scope.
 
 Theorem C08_no_duplicate_validators :
@@ -32,3 +33,31 @@ Theorem C08_reference_verdict_sound :
     ref_verdict ft it fam p rv = "1" <-> ref_ok ft it fam p rv = true.
 Proof. exact ref_verdict_ok. Qed.
 Print Assumptions C08_reference_verdict_sound.
+
+(* When contradictory bounds are given as expressions the macro cannot evaluate, the unit test
+   it generates fails (integers; `excl` = one of the two bounds is greater / less) *)
+Theorem C08_generated_bounds_test_fails :
+  forall (d : decl) (tn : string) (t : int_ty) (kl ku : vkind) (bl bu : bound),
+    d_family d = FInt tn t ->
+    first_bound [KGreater; KGreaterOrEqual] (standard_validators d) = Some (kl, bl) ->
+    first_bound [KLess; KLessOrEqual] (standard_validators d) = Some (ku, bu) ->
+    let excl := existsb (fun v => match v with VGreater _ | VLess _ => true | _ => false end) (standard_validators d) in
+    (bval d bu < bval d bl \/ (excl = true /\ bval d bu = bval d bl))%Z ->
+    bounds_test d = Some false.
+Proof.
+  intros d tn t kl ku bl bu Hf Hl Hu excl H. unfold bounds_test. rewrite Hf, Hl, Hu.
+  fold excl. destruct excl; f_equal; lia.
+Qed.
+Print Assumptions C08_generated_bounds_test_fails.
+
+(* an invalid default makes the generated default test fail *)
+Theorem C08_generated_default_test_fails :
+  forall (lib : fnlib) (d : decl) (v : value) (e : verr),
+    has_validation d = true -> d_generics d = [] -> d_default d <> None ->
+    default_value d = Some v -> d_try_new lib d v = Err e ->
+    default_test lib d = Some false.
+Proof.
+  intros lib d v e Hv Hg Hd Hdv Ht. unfold default_test. rewrite Hv, Hg. cbn.
+  destruct (d_default d); [|contradiction]. rewrite Hdv, Ht. reflexivity.
+Qed.
+Print Assumptions C08_generated_default_test_fails.
